@@ -351,7 +351,7 @@ func runC08(c *core.Ctx) {
 	n := c.Pick(500, 4000)
 	c.RunHistories(n, Registry["C08"].Mons, func(w *core.World) {
 		wts := map[string]int{
-			"edit-new": 10, "edit-mod": 12, "edit-rm": 6, "edit-rmdir": 4,
+			"edit-new": 10, "edit-copy": 2, "edit-copydir": 1, "edit-mod": 12, "edit-rm": 6, "edit-rmdir": 4,
 			"add": 10, "commit-all": 10, "commit": 4, "rm": 2,
 			"switch": 4, "switch-c": 3, "branch-create": 2, "branch-rename": 1,
 		}
@@ -586,7 +586,7 @@ func runC11(c *core.Ctx) {
 	offs := gen.TZOffsets()
 	c.RunHistories(n, Registry["C11"].Mons, func(w *core.World) {
 		wts := map[string]int{
-			"edit-new": 8, "edit-mod": 8, "add": 8, "commit-all": 16, "commit": 4,
+			"edit-new": 8, "edit-copy": 2, "edit-copydir": 1, "edit-mod": 8, "add": 8, "commit-all": 16, "commit": 4,
 			"switch": 8, "switch-c": 6, "branch-create": 3, "branch-rename": 4, "branch-delete": 3,
 			"reflog": 10, "status": 1,
 		}
